@@ -8,7 +8,7 @@ from . import bounds_ops as bo
 BTAGS = {
     'RecordsAligned': {'C13'}, 'Partition': {'C13'}, 'NonEmpty': {'C13'}, 'VolumeRecords': {'C13'},
     'SplitOK_Shape': {'C13'}, 'SplitOK_Survivors': {'C13'}, 'SplitOK_Partition': {'C13'},
-    'SplitOK_ChildMin': {'C13'}, 'SplitOK_Shrinks': {'C13'}, 'SplitOK_Lens': {'C13'},
+    'SplitOK_ChildMin': {'C13'}, 'SplitOK_Shrinks': {'C13'}, 'SplitOK_ShrinksExact': {'C13'}, 'SplitOK_Lens': {'C13'},
     'SplitRefused_Frame': {'C13'}, 'TrimOK_Shape': {'C13'}, 'TrimOK_Flags': {'C13'}, 'TrimOK_Trimmed': {'C13'},
     'TrimOK_Lens': {'C13'}, 'TrimRefused_Frame': {'C13'}, 'Sample_Frame': {'C13'}, 'LogV_Frame': {'C13'},
     'NoRaise': {'C13', 'C07', 'C09'},
@@ -53,6 +53,8 @@ def union_jobs(seed, tier, depth, roundtrip=False, ops=None):
         ('corner', 2, 80, s + 6, 'UnitCubeEllipsoidMixture', True, 4, depth, ops, roundtrip),
         ('clusters2', 3, 120, s + 7, 'Ellipsoid', False, 6, depth, ops, roundtrip),
         ('faces', 3, 80, s + 8, 'Ellipsoid', True, 4, depth, ops, roundtrip),
+        ('compact', 2, 80, s + 17, 'Ellipsoid', True, 4, depth, ops, roundtrip),
+        ('onface', 3, 90, s + 18, 'UnitCubeEllipsoidMixture', True, 5, depth, ops, roundtrip),
     ]
     if tier == 'thorough':
         jobs += [
@@ -77,6 +79,8 @@ def object_specs(seed, tier):
         dict(cls='Ellipsoid', kind='corner', n_dim=1, n=40, seed=s + 21, enlarge=2.0),
         dict(cls='Mixture', kind='faces', n_dim=3, n=80, seed=s + 4),
         dict(cls='Mixture', kind='corner', n_dim=4, n=100, seed=s + 5, enlarge=2.0),
+        dict(cls='Mixture', kind='onface', n_dim=3, n=90, seed=s + 22),
+        dict(cls='NautilusBound', kind='onface', n_dim=3, n=200, seed=s + 23, n_networks=0, npm=6),
         dict(cls='NeuralBound', kind='blob', n_dim=2, n=200, seed=s + 6, n_networks=1),
         dict(cls='NeuralBound', kind='elongated', n_dim=3, n=200, seed=s + 7, n_networks=0),
         dict(cls='NautilusBound', kind='clusters2', n_dim=2, n=200, seed=s + 8, n_networks=0),
@@ -139,8 +143,10 @@ def _insitu(cfg):
     return r
 
 
-def run_walks(rep, prop, ujobs, ospecs, scratch, insitu=()):
+def run_walks(rep, prop, ujobs, ospecs, scratch, insitu=(), many=()):
     results = []
+    if many:
+        results += [('object', r) for r in common.pmap(bo.many_members, list(many))]
     if insitu:
         results += [('object', r) for r in common.pmap(_insitu, list(insitu))]
     if ujobs:
@@ -227,7 +233,9 @@ def check_c09(prop, tier, seed):
         model_check_bounds(rep, tier, scratch)
         depth = 2 if tier == 'quick' else 3
         run_walks(rep, prop, union_jobs(seed + 80, tier, depth, roundtrip=True, ops=['SplitT', 'Trim', 'Sample', 'LogV']),
-                  object_specs(seed + 30, tier), scratch)
+                  object_specs(seed + 30, tier), scratch,
+                  many=[(2, 280, seed + 1, 'Ellipsoid', True), (3, 320, seed + 2, 'UnitCubeEllipsoidMixture', True),
+                        (2, 300, seed + 3, 'Ellipsoid', False)])
         rep.assumptions += ['reader is given a generator in the same state as the writer\'s (cloned)',
                             'behaviour = contains() on 3500+ probe points, log_v, next 1400 samples']
     finally:
